@@ -51,6 +51,6 @@ public:
    int replace(const char *oldtext, const UncText &newtext);
    void update_logtext() {}
    value_type m_chars;                //@f& struct deque_int
-   log_type   m_logtext;
+   log_type   m_logtext;         //@f& struct vector_UINT8
 };
 #endif
